@@ -181,11 +181,23 @@ class Ctx:
         out = os.path.join(self.scratch, "bin-" + driver)
         env = dict(os.environ)
         env.update(GOENV)
-        try:
-            shutil.copy(os.path.join(REPO, "go.sum"), os.path.join(HARNESS, "go.sum"))
-        except Exception:
-            pass
-        cmd = ["go", "build", "-tags", tags, "-o", out, "./cmd/" + driver]
+        cmd = ["go", "build", "-tags", tags, "-o", out]
+        if REPO == "/repo":
+            try:
+                shutil.copy(os.path.join(REPO, "go.sum"), os.path.join(HARNESS, "go.sum"))
+            except Exception:
+                pass
+        else:
+            # development against a scratch worktree of the repository: alternate go.mod with the
+            # replace directive pointing there (VERIF_REPO=/tmp/repo-x ./run.py ...)
+            mf = os.path.join(self.scratch, "alt.mod")
+            with open(os.path.join(HARNESS, "go.mod")) as fh:
+                txt = fh.read().replace("=> /repo", "=> " + REPO)
+            with open(mf, "w") as fh:
+                fh.write(txt)
+            shutil.copy(os.path.join(REPO, "go.sum"), os.path.join(self.scratch, "alt.sum"))
+            cmd += ["-modfile", mf]
+        cmd += ["./cmd/" + driver]
         p = subprocess.run(cmd, cwd=HARNESS, env=env, stdout=subprocess.PIPE, stderr=subprocess.STDOUT,
                            text=True, timeout=900)
         if p.returncode != 0:
